@@ -213,7 +213,78 @@ def check_fillatt(ctx, prog):
                      fn=fn, line=fn.line)
 
 
+def check_fillreach(ctx, eprog):
+    """ncmpio__enddef reaches the fill step whenever the file has a variable at all.  Which variables are filled is decided
+    inside ncmpio_fill_vars (fill mode per variable; new variables; new variables' share of existing records): a guard at
+    the call that looks at the *kind* of the variables (e.g. only when there are fixed-size ones) silently skips record
+    variables added by a redefinition.  The guard is evaluated by the analyser for 0..3 fixed-size and 0..3 record
+    variables; it may read only the two counts and the status words."""
+    import concrete
+    fn = ctx.need_fn(eprog, "ncmpio__enddef")
+    sites = patterns.call_sites(fn, lambda n: n == "ncmpio_fill_vars")
+    ctx.require(len(sites) == 1, "ncmpio__enddef: expected one call of ncmpio_fill_vars, found %d" % len(sites))
+    b, i, c = sites[0]
+    pd = cfg.postdominators(fn)
+
+    def direct(x):
+        out = set()
+        for d, blk in fn.blocks.items():
+            if blk.cond is None or len(blk.succs) != 2 or d == x or x in pd.get(d, set()) or blk.term in ("for", "while", "do"):
+                continue
+            succs = [s_ for s_ in blk.succs if s_ is not None]
+            if any(fn.blocks[s_].noreturn for s_ in succs):
+                continue
+            if any(s_ == x or x in pd.get(s_, set()) for s_ in succs):
+                out.add(d)
+        return out
+    ctrl, todo = set(), [b.id]
+    while todo:
+        x = todo.pop()
+        for d in direct(x):
+            # an earlier test whose other side leaves the function (`if (err) return err`, CHECK_ERROR) is not a guard of
+            # the fill step: its immediate post-dominator is the exit
+            if d not in ctrl and patterns.ipdom(fn, d) not in (None, fn.exit):
+                ctrl.add(d)
+                todo.append(d)
+    inst = "ncmpio__enddef:fill"
+    if not ctrl:
+        ctx.ok("R8.fillreach", inst, "ncmpio_fill_vars is called unconditionally")
+        return
+    doms = cfg.dominators(fn)
+    top = [d for d in ctrl if all(d in doms.get(o, set()) for o in ctrl)]
+    ctx.require(len(top) == 1, "ncmpio__enddef: the guards of the fill step are not nested (%s)" % sorted(ctrl))
+    start = (top[0], len(fn.blocks[top[0]].elems))
+    join = patterns.ipdom(fn, top[0])
+    bad = None
+    cells = 0
+    for nf in range(0, 4):
+        for nr in range(0, 4):
+            reached = []
+            env = {"$dyn": True, "ncp->vars.ndefined": nf + nr, "ncp->vars.num_rec_vars": nr, "status": 0, "err": 0}
+
+            def hook(e, args, env_, reached=reached):
+                if e.get("fn") == "ncmpio_fill_vars":
+                    reached.append(1)
+            try:
+                concrete.run_region(fn, start, {join} if join is not None else set(), env, max_steps=200, call_hook=hook)
+            except concrete.Unsupported as u:
+                raise AnalysisBroken("ncmpio__enddef: the guard of the fill step is no longer interpretable from the variable counts: %s" % u)
+            except KeyError as u:
+                raise AnalysisBroken("ncmpio__enddef: the guard of the fill step reads %s, which this rule does not model" % u)
+            cells += 1
+            want = (nf + nr) > 0
+            if bool(reached) != want and bad is None:
+                bad = (nf, nr, bool(reached))
+    if bad:
+        ctx.fail("R8.fillreach", fn.name, "fill", "with %d fixed-size and %d record variable(s) the fill step is %s: new variables in fill mode "
+                 "(and their share of the existing records) are then never filled" % (bad[0], bad[1], "reached" if bad[2] else "skipped"),
+                 fn=fn, line=c.get("l", 0), inst=inst)
+    else:
+        ctx.ok("R8.fillreach", inst, "%d (fixed, record) variable counts: the fill step is reached exactly when the file has a variable" % cells)
+
+
 def run(ctx):
+    ctx.rule("R8.fillreach", "ncmpio__enddef reaches ncmpio_fill_vars exactly when the file has at least one variable (bounded)")
     ctx.rule("R10.fillbytes", "FILL_<T> byte tables equal the big-endian encodings of NC_FILL_<T>")
     ctx.rule("R10.filltab", "fill type switches total over 11 types, each arm uses its own table/constant")
     ctx.rule("R4.nofill", "no_fill tested before a variable enters the fill request")
@@ -233,3 +304,4 @@ def run(ctx):
         n += r8part.check_fn(ctx, ctx.need_fn(prog, name))
     ctx.require(n >= 3, "expected >= 3 partition slices in the fill routines, found %d" % n)
     check_fillatt(ctx, prog)
+    check_fillreach(ctx, ctx.program(names=["ncmpio_enddef.c"]))
